@@ -274,12 +274,15 @@ def run_kani(features, harnesses, timeout_s, jobs=None, unwindsets=None, mems=No
                 r.update(status="error", detail="cbmc did not finish (rc=%s; out of memory?)\n%s" % (rc, tail))
             else:
                 failed, wit, unwindf, unsupported = [], [], [], []
+                wit_input = None
                 for c in checks:
                     if c["cls"] == "reachability_check":
                         continue
                     if c["cls"] == "cover":
                         if c["description"] == "witness":
                             wit.append("Satisfied" if c["status"] == "FAILURE" else "Unsatisfiable")
+                            if c["status"] == "FAILURE":
+                                wit_input = traces.get(c["name"])
                         continue
                     if c["status"] == "SUCCESS":
                         continue
@@ -290,7 +293,7 @@ def run_kani(features, harnesses, timeout_s, jobs=None, unwindsets=None, mems=No
                     else:
                         failed.append(c)
                 funcs = sorted({c["function"] for c in checks if (c.get("file") or "").startswith(repo_path())})
-                r.update(witness=wit, functions=funcs)
+                r.update(witness=wit, functions=funcs, witness_input=wit_input)
                 if unwindf:
                     r.update(status="failure", failed=[dict(description="unwinding assertion: " + c["description"], function=c["function"],
                                                             file=c["file"], line=c["line"], category="unwind", name=c["name"],
